@@ -10,6 +10,7 @@ func views() map[string]View {
 	return map[string]View{
 		"hash":    hashView{},
 		"cdecode": newCDecodeView(),
+		"sim":     newSimView(),
 	}
 }
 
